@@ -28,7 +28,7 @@ CONSTANTS
   Heights = {%(heights)s}
   BigHeights = {%(big)s}
   Nonces <- AllNonces
-  LastDigits = {0, 3}
+  LastDigits = {%(last)s}
   ChainID = 1224
   OtherChainID = 6
 VIEW view
@@ -62,7 +62,8 @@ def run(chk):
     binary = vf.go_build("auxpow")
     nn = 6 if thorough else 2
     nonces = ["<<%d, %d, %d, %d>>" % tuple(rng.randrange(256) for _ in range(4)) for _ in range(nn)]
-    cfg = CFG % dict(heights="0, 1, 2, 3" + (", 4, 5" if thorough else ""), big="31, 32, 33")
+    cfg = CFG % dict(heights="0, 1, 2, 3" + (", 4, 5" if thorough else ""), big="31, 32, 33",
+                     last="0, 1, 2, 3" if thorough else "0, 3")
     r = vf.tlc("Edge", "AuxPow", "ap.cfg", cfg_text=cfg, workers=8, timeout=1500,
                files={"AuxPowParams.tla": PARAMS % ", ".join(nonces)}, jvm=("-XX:ParallelGCThreads=4",))
     vf.tlc_ok(r, "AuxPow exhaustive")
